@@ -1,5 +1,6 @@
 import Imdlv.Lemmas.Metainfo
 import Imdlv.Lemmas.Bencode
+import Imdlv.Lemmas.ReadBack
 /-!
 # C05 — created metainfo states exactly what was requested, canonically and reproducibly
 
@@ -157,6 +158,28 @@ theorem reproducible (o : CreateOpts) (cb : Bytes) (now₁ now₂ : Nat) (mode :
     (createMetainfo o cb now₁ mode pieces).serialize = (createMetainfo o cb now₂ mode pieces).serialize := by
   simp [createMetainfo, h]
 
+/-! ## an independent strict decoder reads back exactly the requested value -/
+
+/-- the option values fit what bencode integers and string lengths can carry (`i64`, `usize`) -/
+def OptsOk (o : CreateOpts) (cb : Bytes) (now : Nat) (mode : ModeM) (pieces : Bytes) : Prop :=
+  (createMetainfo o cb now mode pieces).Ok
+
+/-- **Read-back**: every strict decoder — canonical integers and lengths, strictly ascending keys,
+any nesting limit of at least five, bendy's 2048 included — reads the written bytes back as exactly
+the value of the assembled metainfo and consumes all of them (`r` = whatever follows is untouched;
+with `r = []`: no trailing bytes). All `…_exact` theorems above therefore describe what such a
+decoder finds under each key. -/
+theorem created_reads_back (o : CreateOpts) (cb : Bytes) (now : Nat) (mode : ModeM) (pieces : Bytes)
+    (h : OptsOk o cb now mode pieces) (depth : Nat) (hd : 5 ≤ depth) (r : Bytes) :
+    decodeTop depth ((createMetainfo o cb now mode pieces).serialize ++ r) =
+      some ((createMetainfo o cb now mode pieces).toBVal, r) :=
+  serialize_reads_back _ h depth hd r
+
+/-- two different assembled values are never written as the same bytes -/
+theorem created_one_reading (m₁ m₂ : MetainfoM) (h₁ : m₁.Ok) (h₂ : m₂.Ok) (h : m₁.serialize = m₂.serialize) :
+    m₁.toBVal = m₂.toBVal :=
+  encode_injective _ _ (metainfo_wf m₁ h₁).1 (metainfo_wf m₂ h₂).1 h
+
 /-! ## Non-vacuity: a concrete option record and its exact bytes -/
 def sampleOpts : CreateOpts :=
   { announce := some (str "http://t/a"), tiers := [], comment := none, source := some (str "s"), nodes := [⟨str "::1", 80⟩],
@@ -164,6 +187,12 @@ def sampleOpts : CreateOpts :=
 
 example : (createMetainfo sampleOpts [] 0 (.single 3 none) []).serialize =
     str "d8:announce10:http://t/a8:encoding5:UTF-84:infod6:lengthi3e4:name1:n12:piece lengthi16384e6:pieces0:7:privatei1e6:source1:se5:nodesll3:::1i80eeee" := by
+  decide +kernel
+
+/-- the bounds of `created_reads_back` hold for it -/
+example : OptsOk sampleOpts [] 0 (.single 3 none) [] := by
+  unfold OptsOk MetainfoM.Ok InfoM.Ok ModeM.Ok optOk strOk
+  simp [createMetainfo, sampleOpts, NodeM.Ok, strOk]
   decide +kernel
 
 end Imdlv.C05
